@@ -141,3 +141,8 @@ PROPS["C19"] = {"units": [
     rapid_unit("programs", "race", "^TestC19Programs$", 700, 16 * 6000, race=True,
                replay_run="^TestC19Replay$", shrinktime="1s"),
 ]}
+
+PROPS["C01"] = {"units": [
+    plain_unit("regress", "vnete2e", "^TestRegressC01", overlay="plain"),
+    rapid_unit("delivery", "vnete2e", "^TestC01Delivery$", 500, 16 * 5000, overlay="plain"),
+]}
